@@ -45,7 +45,7 @@ CLAIMED = {
  "C14": ("Partial (accounting and phases): same harnesses as C04. Asserted: the kill report's size and count grow by exactly the cached sizes/"
          "counts of the removed paths (collapsed children included, on top of an existing partial report), every reported path was passed to "
          "RemoveAll and lies inside the fork directory, everything nothing keeps alive is reclaimed, split/chunk/join temp cleaning runs in the "
-         "phases named and never twice (restart between partial and final). H_C14_cleanTemp: the real clean*Temp on a file-system model (0..3 chunks, 0..1 (2) scratch files of arbitrary size, any tmp/ already missing); H_C04_killNonVolatile with 0..3 chunks; a kill which writes the final report announces it.",
+         "phases named and never twice (restart between partial and final). H_C14_cleanTemp: the real clean*Temp on a file-system model (0..3 chunks, 0..1 (2) scratch files of arbitrary size, any tmp/ already missing); H_C04_killNonVolatile with 0..3 chunks; a kill which writes the final report announces it. H_C14_splitTempTwice: the split temp clean-up run twice keeps the first pass's totals.",
          "Trusted: as C04. Outside: what survives on disk, the temp-directory walks themselves (clean*Temp internals), event time-lines, the "
          "pipestance-level merge.",
          "DESIGN.md §4 (C14)"),
@@ -82,7 +82,7 @@ CLAIMED = {
  "C09": ("String values of up to 3 (thorough 4) arbitrary bytes, source literals built from two atoms (raw byte, simple/octal/hex "
          "escape), src commands, @include paths and integers below 10^3 (10^4) are symbolic; the real quoteString, lexer, unquote, "
          "yacc parser and formatter run on them and the solver shows the formatted text lexes/parses back to the same value and is a "
-         "fixed point. Also: a commented call with every subset of local/preflight/volatile in legacy or using syntax (comment kept once, idempotent), the stable topological sort of calls, stage resources from a concrete table of 24 float literals, and a translator self-test on 10 repository files. Partial: kernels, not whole arbitrary files. H_C09_expandedRecompiles: the rendering of the compiled program which mrp records (10 repository programs + a wildcard fixture) compiles on its own, is a fixed point and resolves to the same call graph.",
+         "fixed point. Also: a commented call with every subset of local/preflight/volatile in legacy or using syntax (comment kept once, idempotent), the stable topological sort of calls, stage resources from a concrete table of 24 float literals, and a translator self-test on 10 repository files. Partial: kernels, not whole arbitrary files. H_C09_expandedRecompiles: the rendering of the compiled program which mrp records (10 repository programs + a wildcard fixture) compiles on its own, is a fixed point and resolves to the same call graph. H_C09_commentAtSplit (3 places around a split operand / call modifiers), H_C09_commentThenBlank (20 places, comment followed by an empty line), huge reservations (1e16, 3e38) in H_C09_resourceFloats.",
          "Trusted: go/ssa, symgo, regex VM model, z3. Outside: floats beyond the table, comments elsewhere than on calls, whole-file idempotence, "
          "include-expanded rendering, wider integers. One known finding (non-UTF-8 literal bytes) is reported as KNOWN-FINDING.",
          "DESIGN.md §4 (C09)"),
